@@ -21,7 +21,7 @@ class SpecMixin(object):
         'pubev', 'ev_w', 'ev_topic', 'ev_pid', 'ev_code', 'at', 'truthy', 'val', 'vnone',
         'prefix_of', 'suffix_of', 'contains', 'index_of', 'str_to_int', 'iff', 'distinct_keys',
         'null', 'isnull', 'in_re', 'last', 'card', 'real', 'tag_eq', 'obj_of', 'same_ghost',
-        'str_of_int', 'length', 'ref_id',
+        'str_of_int', 'length', 'ref_id', 'distinct',
     ])
 
     # ------------------------------------------------------------------ entry points
@@ -34,23 +34,32 @@ class SpecMixin(object):
                 raise OutOfSubset('syntax error in spec %r: %s' % (text, e))
         return self._feas_cache[key]
 
-    def sp(self, text, st):
-        """evaluate a spec expression to an SV (total)"""
+    def sp(self, text, st, pol=0):
+        """evaluate a spec expression to an SV (total).  pol: +1 the formula is a goal to prove,
+        -1 it is assumed, 0 unknown/mixed.  Polarity only selects between logically equivalent
+        encodings of contains()/distinct() (skolem-function form when assumed, quantifier form
+        when proved)."""
         tree = self.parse_spec(text) if isinstance(text, str) else text
         self.spec_mode += 1
+        saved = self.spec_pol
+        self.spec_pol = pol
         try:
             return self.ev1(tree, st)
         finally:
             self.spec_mode -= 1
+            self.spec_pol = saved
 
-    def spb(self, text, st):
-        v = self.sp(text, st)
+    def spb(self, text, st, pol=0):
+        v = self.sp(text, st, pol)
         return self.truthy(st, v)
 
     # ------------------------------------------------------------------ ghosts
     def ghost_get(self, st, name):
         if name not in st.ghost:
             st.ghost[name] = named(self.spec.ghosts[name], 'G.' + name)
+            for f in self.wf_value_facts(st.ghost[name]):
+                if not any(f.eq(x) for x in self.global_axioms):
+                    self.global_axioms.append(f)
         return st.ghost[name]
 
     def ghost_set(self, st, name, val):
@@ -120,15 +129,33 @@ class SpecMixin(object):
         return self._quant(e, st, z3.Exists)
 
     def spec_implies(self, e, st):
-        a, b = self._args(e, st)
+        saved = self.spec_pol
+        self.spec_pol = -saved
+        try:
+            a = self.ev1(e.args[0], st)
+        finally:
+            self.spec_pol = saved
+        b = self.ev1(e.args[1], st)
         return SV(BOOL, z3.Implies(self.truthy(st, a), self.truthy(st, b)))
 
     def spec_iff(self, e, st):
-        a, b = self._args(e, st)
+        saved = self.spec_pol
+        self.spec_pol = 0
+        try:
+            a, b = self._args(e, st)
+        finally:
+            self.spec_pol = saved
         return SV(BOOL, self.truthy(st, a) == self.truthy(st, b))
 
     def spec_ite(self, e, st):
-        c, a, b = self._args(e, st)
+        saved = self.spec_pol
+        self.spec_pol = 0
+        try:
+            c = self.ev1(e.args[0], st)
+        finally:
+            self.spec_pol = saved
+        a = self.ev1(e.args[1], st)
+        b = self.ev1(e.args[2], st)
         return self.ite(self.truthy(st, c), a, b, e)
 
     def spec_truthy(self, e, st):
@@ -396,8 +423,30 @@ class SpecMixin(object):
         a, b = self._args(e, st)
         if isinstance(a.ty, TList):
             b = self.coerce(b, a.ty.elem)
+            if self.spec_pol < 0 and a.t:
+                # assumed: skolem-function form (the witness is a function of the list and the element)
+                w = ufun('wit_%s' % str(a.t[0].sort()).replace(' ', '_'), a.t[0].sort(), b.z.sort(), z3.IntSort())
+                i = w(a.t[0], b.z)
+                return SV(BOOL, z3.And(0 <= i, i < a.t[1], z3.Select(a.t[0], i) == b.z))
             return SV(BOOL, self.L_contains(a, b.z))
         return SV(BOOL, z3.Contains(a.z, b.z))
+
+    def spec_distinct(self, e, st):
+        """distinct(l): no element occurs twice.  Assumed: injectivity through a position function
+        (linear instantiation); proved: pairwise quantifier (skolemised by the solver)."""
+        (l,) = self._args(e, st)
+        if not l.t:
+            return mk_bool(True)
+        i = z3.Int(fresh_name('di'))
+        j = z3.Int(fresh_name('dj'))
+        if self.spec_pol < 0:
+            (es,) = zsorts(l.ty.elem)
+            pos = ufun('pos_%s' % str(l.t[0].sort()).replace(' ', '_'), l.t[0].sort(), es, z3.IntSort())
+            return SV(BOOL, FA([i], z3.Implies(z3.And(0 <= i, i < l.t[1]),
+                                               pos(l.t[0], z3.Select(l.t[0], i)) == i),
+                               patterns=[z3.Select(l.t[0], i)]))
+        return SV(BOOL, z3.ForAll([i, j], z3.Implies(z3.And(0 <= i, i < j, j < l.t[1]),
+                                                     z3.Select(l.t[0], i) != z3.Select(l.t[0], j))))
 
     def spec_index_of(self, e, st):
         a, b = self._args(e, st)
@@ -547,6 +596,14 @@ class SpecMixin(object):
             obj = self.sp(head, st)
             if not isinstance(obj.ty, TRef):
                 self.oos('modifies entry %r: %s is not an object' % (m, head), node)
+            if field == '*':
+                for cname in self.spec.mro(obj.ty.cls):
+                    for fld in self.spec.classes[cname].fields:
+                        key = (cname, fld)
+                        if key in out['keys'] and out['keys'][key] is None:
+                            continue
+                        out['keys'].setdefault(key, []).append(obj.z)
+                continue
             key, ty = self.field_info(obj.ty.cls, field, node)
             if key in out['keys'] and out['keys'][key] is None:
                 continue
@@ -570,6 +627,7 @@ class SpecMixin(object):
             for g in sorted(self.spec.ghosts):
                 st = st.copy()
                 st.ghost[g] = fresh(self.spec.ghosts[g], 'G.' + g)
+                st = st.assume(*self.wf_value_facts(st.ghost[g]))
             news = set(k[0] for k in self.all_heap_keys(st))
         else:
             for key in sorted(mods['keys']):
@@ -578,12 +636,12 @@ class SpecMixin(object):
                 if objs is None:
                     st = self.havoc_key(st, key, ty)
                 else:
-                    st = self.havoc_key(st, key, ty,
-                                        keep=lambda o, objs=objs: z3.And(*[o != x for x in objs]))
+                    st = self.havoc_objs(st, key, ty, objs)
             for g in sorted(mods['ghosts']):
                 st = st.copy()
                 self.ghost_get(st, g)
                 st.ghost[g] = fresh(self.spec.ghosts[g], 'G.' + g)
+                st = st.assume(*self.wf_value_facts(st.ghost[g]))
             news = mods['new']
         for cls in sorted(news):
             arrs, ty, key = self.heap_arrays(st, cls, '$alloc')
@@ -682,16 +740,23 @@ class SpecMixin(object):
             cv = self.coerce(v, ty)
             if cv is None:
                 if ty == VAL:
-                    cv = self.to_val_deep(st, v)
+                    st, cv = self.to_val_deep(st, v)
                 else:
                     cv = self.coerce_store(st, v, ty, 'arg %s of %s' % (n, c.qual), node)
             env[n] = cv
         pre = st.copy()
         pre.env = env
         pre.old = None
+        if c.inline is not None and (self.spec_mode or not c.requires) and not c.modifies:
+            # pure accessor whose result is definitional: no fresh symbol needed
+            pre.old = pre
+            val = self.sp(c.inline, pre)
+            if c.ret is not None and c.ret != NONE:
+                val = self.coerce(val, c.ret) or val
+            return self.ok(st, val)
         # preconditions
         for i, r in enumerate(c.requires):
-            cond = self.spb(r, pre)
+            cond = self.spb(r, pre, +1)
             if not z3.is_true(cond):
                 self.add_vc('pre[%d]:%s@%s' % (i, c.qual.split(':')[-1], getattr(node, 'lineno', '?')),
                             'pre', st, cond, node, note=r)
@@ -714,7 +779,7 @@ class SpecMixin(object):
         feasible = True
         conds = []
         for ens in c.ensures:
-            cz = self.spb(ens, post)
+            cz = self.spb(ens, post, -1)
             if z3.is_false(cz):
                 feasible = False
                 break
@@ -748,7 +813,7 @@ class SpecMixin(object):
             zs = []
             dead = False
             for ec in ([econds] if isinstance(econds, str) else econds):
-                cz = self.spb(ec, epost)
+                cz = self.spb(ec, epost, -1)
                 if z3.is_false(cz):
                     dead = True
                     break
